@@ -1084,9 +1084,17 @@ func (fr *oFrame) evalMulti(e ast.Expr) []oval {
 	case *ast.CallExpr:
 		return fr.call(x)
 	case *ast.IndexExpr:
-		if m, ok := fr.eval(x.X).(oMap); ok {
+		base := fr.eval(x.X)
+		if m, ok := base.(oMap); ok {
 			v, present := fr.mapIndex(x, m)
 			return []oval{v, present}
+		}
+		// a nil map: every key is absent
+		if _, isNil := base.(oNil); isNil {
+			if mt, ok := fr.info.TypeOf(x.X).Underlying().(*types.Map); ok {
+				fr.eval(x.Index)
+				return []oval{fr.it.zero(mt.Elem()), oBool(false)}
+			}
 		}
 	}
 	return []oval{fr.eval(e)}
@@ -1270,12 +1278,8 @@ func (fr *oFrame) eval(e ast.Expr) oval {
 			if s := fr.structRef(x.X); s != nil {
 				return oPtr{s}
 			}
-			if id, ok := unparen(x.X).(*ast.Ident); ok {
-				if o := objOf(fr.info, id); o != nil {
-					if c := fr.env.lookup(o); c != nil {
-						return oRef{cell: c, typ: o.Type()}
-					}
-				}
+			if c := fr.varCell(x.X); c != nil {
+				return oRef{cell: c, typ: fr.info.TypeOf(x.X)}
 			}
 			if sel, ok := unparen(x.X).(*ast.SelectorExpr); ok {
 				// &x.f for a scalar field
@@ -1885,6 +1889,17 @@ func (fr *oFrame) call(call *ast.CallExpr) []oval {
 						xv = p
 					}
 				}
+			} else if r, ok := iv.dyn.(oRef); ok && r.typ != nil {
+				// a pointer to a variable of a named non-struct type (*pointList) held in the interface
+				obj, _, _ := types.LookupFieldOrMethod(types.NewPointer(r.typ), true, f.Pkg(), f.Name())
+				cf, ok := obj.(*types.Func)
+				if !ok {
+					return one(oTop{"no method " + f.Name() + " on *" + r.typ.String()})
+				}
+				f = cf
+				sig = f.Type().(*types.Signature)
+				_, ptrRecv = sig.Recv().Type().(*types.Pointer)
+				xv = r
 			} else if dt := dynType(iv.dyn); dt != nil {
 				// a value of a named slice/struct type held in the interface
 				obj, _, _ := types.LookupFieldOrMethod(dt, true, f.Pkg(), f.Name())
@@ -1905,15 +1920,22 @@ func (fr *oFrame) call(call *ast.CallExpr) []oval {
 		}
 		if hostRecv {
 			recv = xv
+		} else if r, isRef := xv.(oRef); isRef && ptrRecv {
+			recv = r
+		} else if isRef {
+			recv = fr.rvalue(r.load())
 		} else if ptrRecv {
 			if p, ok := xv.(oPtr); ok {
 				recv = p
 			} else if s := fr.structRef(sel.X); s != nil {
 				recv = oPtr{s}
+			} else if cell := fr.varCell(sel.X); cell != nil {
+				// a pointer-receiver method of an addressable variable of a named non-struct type
+				recv = oRef{cell: cell, typ: fr.info.TypeOf(sel.X)}
 			} else {
 				return one(oTop{"receiver not addressable"})
 			}
-			if recv.(oPtr).s == nil {
+			if p, isPtr := recv.(oPtr); isPtr && p.s == nil {
 				return one(oTop{"nil receiver"})
 			}
 		} else {
@@ -2387,6 +2409,25 @@ func isStringT(t types.Type) bool {
 // oFuncRef is a package-level function used as a value.
 type oFuncRef struct{ f *types.Func }
 
+// varCell: the storage cell of a plain variable (local or package-level) named by e.
+func (fr *oFrame) varCell(e ast.Expr) *oval {
+	id, ok := unparen(e).(*ast.Ident)
+	if !ok {
+		return nil
+	}
+	o := objOf(fr.info, id)
+	if o == nil {
+		return nil
+	}
+	if _, isVar := o.(*types.Var); !isVar {
+		return nil
+	}
+	if c := fr.env.lookup(o); c != nil {
+		return c
+	}
+	return fr.it.global(o)
+}
+
 // oMethodExpr is a method expression T.m: called with the receiver as its first argument.
 type oMethodExpr struct{ f *types.Func }
 
@@ -2447,17 +2488,20 @@ func (it *oInterp) initPackage(tp *types.Package) {
 			}
 		}
 	}
-	for pass := 0; pass < 2; pass++ {
-		for _, sp := range specs {
-			if len(sp.vals) != len(sp.names) {
-				continue
+	// initialisers in the order the language defines (dependencies first), as go/types computed it
+	_ = specs
+	for _, ini := range info.InitOrder {
+		fr.why = ""
+		if len(ini.Lhs) == 1 {
+			if cell := it.globals[ini.Lhs[0]]; cell != nil {
+				*cell = fr.rvalue(fr.eval(ini.Rhs))
 			}
-			for i, nm := range sp.names {
-				if o := info.Defs[nm]; o != nil {
-					fr.why = ""
-					v := fr.eval(sp.vals[i])
-					*it.globals[o] = v
-				}
+			continue
+		}
+		vals := fr.evalMulti(ini.Rhs)
+		for i, lv := range ini.Lhs {
+			if cell := it.globals[lv]; cell != nil && i < len(vals) {
+				*cell = fr.rvalue(vals[i])
 			}
 		}
 	}
